@@ -2,7 +2,8 @@
    satisfies an invariant is Ok or Err and re-establishes the invariant, no run
    of any length panics. *)
 From Coq Require Import List.
-From GV Require Import Base.Result Model.RuntimeIndex.
+From Coq Require Import NArith.
+From GV Require Import Base.Result Model.RuntimeIndex Proofs.C07.Arith Proofs.C07.Runtime.
 
 Section Run.
   Variable state : Type.
@@ -27,3 +28,18 @@ Section Run.
   Theorem run_from_step : step_safe -> full_statement.
   Proof. intros H. split; [exact H | exact (run_no_panic H)]. Qed.
 End Run.
+
+(* non-vacuity: a toy machine whose only state is the register depth and whose step is an Equal instruction
+   (two registers popped, one pushed; an error when fewer than two are left) meets the one-step premise with
+   the trivial invariant, so no run of it panics -- runs end in Err once the registers are used up. *)
+Definition toy_step (register_len : N) : res N := do start <- equality_start register_len ; Ok (start + 1)%N.
+
+Lemma toy_step_safe : step_safe N toy_step (fun _ => True).
+Proof.
+  intros s _. split; [| intros; exact I]. unfold toy_step.
+  pose proof (equality_start_no_panic s) as H. destruct (equality_start s); cbn [bind]; try exact I; contradiction.
+Qed.
+
+Lemma toy_run_example :
+  full_statement N toy_step (fun _ => True) /\ run N toy_step 2 3%N = Ok 1%N /\ run N toy_step 3 3%N = Err 1%N.
+Proof. split; [exact (run_from_step N toy_step _ toy_step_safe)|]. split; vm_compute; reflexivity. Qed.
